@@ -435,6 +435,91 @@ def runLbPlan (shards : List Nat) (ident : String) (target : Nat) (shard : Optio
                         else head ++ "REJECT expected " ++ (if raw.isEmpty then "-" else ",".intercalate (raw.map rawStr))
   | _, _ => head ++ "REJECT unparsable"
 
+def parseRawEntry (n : Nat) (tok : String) : Option RawTarget :=
+  match tok.splitOn ":" with
+  | [k, sh] => match k.toNat? with
+    | some k => if k ≥ n then none
+                else if sh == "-" then some (k, none) else sh.toNat?.map (fun s => (k, some s))
+    | none => none
+  | _ => none
+
+/-- `lbscript`: `Plan` over a scripted policy: the hypothesis `PolicyDistinct` (decided) and `lbRaw`, the observed plan
+being `resolveAll` of it for some random shards. -/
+def runLbScript (shards : List Nat) (pick : Option RawTarget) (fb : List RawTarget) (impl : String) : String :=
+  let sharded := fun k => shards.getD k 0 > 0
+  let raw := lbRaw pick fb
+  let head := s!"distinct={if policyDistinctB sharded pick fb then 1 else 0} plan="
+  let implPlan := match (words impl).getLast? with
+    | some w => if w.startsWith "plan=" then some (w.drop 5).toString else none
+    | none => none
+  let obs : Option (List (Nat × Nat)) := match implPlan with
+    | some "-" => some []
+    | some p => (p.splitOn ",").mapM parsePlanEntry
+    | none => none
+  match implPlan, obs with
+  | some p, some obs => if planMatches shards raw obs then head ++ p
+                        else head ++ "REJECT expected " ++ (if raw.isEmpty then "-" else ",".intercalate (raw.map rawStr))
+  | _, _ => head ++ "REJECT unparsable"
+
+/-! ### `pplan`: `pagerPlan` against the targets a real `Session` used, page by page -/
+
+def kvOf (ws : List String) (k : String) : Option String :=
+  (ws.filterMap fun w => match w.splitOn "=" with
+    | [a, b] => if a == k then some b else none
+    | _ => none).head?
+
+def parseObsEntry (tok : String) : Option (Nat × Option Nat) :=
+  match tok.splitOn ":" with
+  | [k, sh] => match k.toNat? with
+    | some k => if sh == "-" then some (k, none) else sh.toNat?.map (fun s => (k, some s))
+    | none => none
+  | _ => none
+
+def parseObsPage (s : String) : Option (List (Nat × Option Nat)) :=
+  if s == "-" then some [] else (s.splitOn ",").mapM parseObsEntry
+
+/-- an observed request (node, server-side shard of the connection) is on the plan target `t` -/
+def obsMatches (sharded : Bool) (t : PlanTarget) (o : Nat × Option Nat) : Bool :=
+  t.1 == o.1 && (if sharded then o.2 == some t.2 else o.2 == none)
+
+def prefixMatches (sharded : Bool) : List PlanTarget → List (Nat × Option Nat) → Bool
+  | _, [] => true
+  | t :: ts, o :: os => obsMatches sharded t o && prefixMatches sharded ts os
+  | [], _ :: _ => false
+
+/-- The requests of page `j` are the first executions' draws from `pagerPlan coord lbPlan`, for the coordinator being
+one of the targets the previous page was fetched from (the one that answered first). -/
+def pageOk (sharded : Bool) (lbPlan : List PlanTarget) (kmax : Nat) (prev : Option (List (Nat × Option Nat)))
+    (obs : List (Nat × Option Nat)) : Bool :=
+  let coords : List (Option (Nat × Option Nat)) := match prev with
+    | none => [none]
+    | some ps => ps.map (fun c => some (c.1, if sharded then c.2 else none))
+  !obs.isEmpty && coords.any fun coord =>
+    let expected := pagerPlan coord lbPlan
+    obs.length ≤ min kmax expected.length && prefixMatches sharded expected obs
+
+def runPPlan (ws : List String) (impl : String) : String :=
+  match (kvOf ws "n").bind String.toNat?, (kvOf ws "sh").bind String.toNat?, (kvOf ws "max").bind String.toNat?,
+        (kvOf ws "slow").bind String.toNat?, kvOf ws "order" with
+  | some n, some sh, some mx, some slow, some order =>
+    match (order.splitOn ",").mapM (parseRawEntry n) with
+    | none => "bad-case"
+    | some order =>
+      -- the scripted policy: pick = the first entry, fallback = all of them (`Plan` skips the exact copies of the pick)
+      let lbPlan := resolveAll (lbRaw order.head? order) []
+      let pagesStr := (impl.trimAscii.toString.drop 6).toString
+      if !(impl.startsWith "pages=") then impl  -- e2e-skip / bad-case lines of the harness are not judged
+      else match (pagesStr.splitOn "/").mapM parseObsPage with
+        | some [p0, p1, p2] =>
+          let sharded := sh > 0
+          let k (j : Nat) := if j == slow then 1 + mx else 1
+          if !pageOk sharded lbPlan (k 0) none p0 then "REJECT page 0 is not a prefix of the load-balancing plan"
+          else if !pageOk sharded lbPlan (k 1) (some p0) p1 then "REJECT page 1 is not a prefix of pagerPlan"
+          else if !pageOk sharded lbPlan (k 2) (some p1) p2 then "REJECT page 2 is not a prefix of pagerPlan"
+          else impl
+        | _ => "REJECT unparsable"
+  | _, _, _, _, _ => "bad-case"
+
 def run (case impl : String) : String :=
   match words case with
   | ["class", o] =>
@@ -451,6 +536,18 @@ def run (case impl : String) : String :=
           || !(["host", "node", "addr", "nohost", "noaddr"].contains ident) then "bad-case"
       else runLbPlan shards ident target sh impl
     | _, _, _ => "bad-case"
+  | ["lbscript", shards, pick, fb] =>
+    match (shards.splitOn ",").mapM String.toNat? with
+    | some shards =>
+      if shards.isEmpty || shards.length > 8 then "bad-case" else
+      let n := shards.length
+      let pickP : Option (Option RawTarget) := if pick == "none" then some none else (parseRawEntry n pick).map some
+      let fbP : Option (List RawTarget) := if fb == "-" then some [] else (fb.splitOn ",").mapM (parseRawEntry n)
+      match pickP, fbP with
+      | some pickP, some fbP => runLbScript shards pickP fbP impl
+      | _, _ => "bad-case"
+    | none => "bad-case"
+  | "pplan" :: ws => runPPlan ws impl
   | "spec" :: m :: i :: toks =>
     match m.toNat?, i.toNat?, parseSpecToks 0 toks with
     | some m, some i, some script =>
